@@ -433,7 +433,7 @@ pub fn run(ctx: Ctx) -> ! {
     let cov = cov! {
         "evaluations" => evaluations,
         "distinct_nontrivial" => distinct.len(),
-        "txbuilder_pass" => json!({"cases": bp.cases, "builds": bp.builds, "script_data_hashes_checked": bp.hashes_checked, "distinct_built_redeemer_encodings": bp.distinct_redeemer_orders,
+        "txbuilder_pass" => json!({"cases": bp.cases, "builds": bp.builds, "script_data_hashes_checked": bp.hashes_checked,
             "rule": "case = (1..4 spend redeemers, 0..2 mint redeemers, 0..2 witness datums, non-empty subset of the three languages) staged on the real StagingTransaction and built with build_conway_raw on 8 (quick) / 24 (thorough) fresh instances; body key 11 must equal Blake2b-256(witness key 5 bytes as built || witness key 4 bytes as built || own language-view encoding)"}),
         "rule" => "evaluation = one hash observation (build_for, ScriptData::hash on decoded parts, ScriptData::hash with in-memory redeemers, LanguageViews encoding, real transaction); non-trivial = distinct expected preimages redeemers|a0 ++ datums ++ views|a0 assembled by the oracle (counted by their Blake2b)",
         "samples" => samples,
